@@ -4,7 +4,7 @@
    [decode] = get_graphic_data on the parsed group, [m_encode]/[m_decode] =
    Measurements.__init__/get_values, [get_group(s)] = get_annotation_group(s). *)
 From Coq Require Import String ZArith List Bool.
-From HD Require Import Base.Val C18_Model C18_Proofs C18_Proofs_Meas C18_Proofs_Index C18_Proofs_General.
+From HD Require Import Base.Val C18_Model C18_Proofs C18_Proofs_Meas C18_Proofs_Index C18_Proofs_General C18_Proofs_History.
 Import ListNotations.
 Open Scope Z_scope.
 
@@ -67,6 +67,48 @@ Theorem C18_coordinate_index_selects : forall dbl gt gd e k a,
              Forall (fun j => 0 <= j < zlen (e_data e)) ci.
 Proof. exact coordinate_index_selects. Qed.
 Print Assumptions C18_coordinate_index_selects.
+
+(* ---- access order: one group object, any sequence of accessor calls -------------------
+   [run_ops e c ops]: the answers of the calls [ops] (HAll cd = get_graphic_data,
+   HOne k cd = get_coordinates k) made in that order on one object whose decode cache
+   is c (None = parsed group, nothing decoded yet; Some = freshly built group).
+   [answer gd o]: the stored data - the whole list / item k-1 / ValueError for k<1 /
+   IndexError for k>n. *)
+(* a parsed group answers every call of every history as if it were the first call *)
+Theorem C18_history_independent : forall e cd ops, Forall (fun o => op_cd o = cd) ops ->
+  run_ops e None ops = map (stateless e) ops.
+Proof. exact history_parsed. Qed.
+Print Assumptions C18_history_independent.
+
+(* ... and that answer is the stored data: per annotation number BEFORE the whole group
+   was ever decoded just as well as after *)
+Theorem C18_access_order_parsed : forall dbl gt gd e ops,
+  encode dbl gt gd = Ok e -> z_agree dbl gd = true ->
+  Forall (fun o => op_cd o = dim gd) ops ->
+  run_ops e None ops = map (answer gd) ops.
+Proof. exact access_order_parsed. Qed.
+Print Assumptions C18_access_order_parsed.
+
+Theorem C18_access_order_fresh : forall dbl gt gd e ops,
+  encode dbl gt gd = Ok e -> Forall (fun o => op_cd o = dim gd) ops ->
+  run_ops e (Some (row_dim gd, gd)) ops = map (answer gd) ops.
+Proof. exact access_order_fresh. Qed.
+Print Assumptions C18_access_order_fresh.
+
+Theorem C18_parsed_like_fresh : forall dbl gt gd e ops,
+  encode dbl gt gd = Ok e -> z_agree dbl gd = true ->
+  Forall (fun o => op_cd o = dim gd) ops ->
+  run_ops e None ops = run_ops e (Some (row_dim gd, gd)) ops.
+Proof. exact parsed_like_fresh. Qed.
+Print Assumptions C18_parsed_like_fresh.
+
+(* the cache is keyed by coordinate type: a call under the other type is refused and
+   leaves the object as it was *)
+Theorem C18_other_type_refused : forall e cd0 gd o, op_cd o <> cd0 ->
+  hstep e (Some (cd0, gd)) o =
+  (match o with HAll _ => RAll (Err VE) | HOne _ _ => ROne (Err VE) end, Some (cd0, gd)).
+Proof. exact other_type_refused. Qed.
+Print Assumptions C18_other_type_refused.
 
 (* ---- integer input: precision choice and the 2^53 guard ------------------------------ *)
 (* single precision is kept only when every integer is m * 2^e with |m| < 2^24,
@@ -241,6 +283,18 @@ Proof.
   repeat split; try (eexists; repeat split; vm_compute; reflexivity); vm_compute; reflexivity.
 Qed.
 Print Assumptions C18_example_graphic.
+
+(* cold parsed polygon group with shared z: LAST annotation first, then the whole group,
+   then numbers 1, 3 (beyond), 0 *)
+Example C18_example_access_order :
+  exists e, encode false POLYGON ex_poly3d_shared = Ok e /\
+    Forall (fun o => op_cd o = dim ex_poly3d_shared) [HOne 2 3; HAll 3; HOne 1 3; HOne 3 3; HOne 0 3] /\
+    run_ops e None [HOne 2 3; HAll 3; HOne 1 3; HOne 3 3; HOne 0 3] =
+      [ROne (Ok (nth 1 ex_poly3d_shared [])); RAll (Ok ex_poly3d_shared); ROne (Ok (nth 0 ex_poly3d_shared []));
+       ROne (Err "IndexError"%string); ROne (Err VE)] /\
+    run_ops e None [HOne 2 2; HAll 3] = [ROne (Ok (nth 1 ex_poly3d_shared [])); RAll (Err VE)].
+Proof. eexists. split; [vm_compute; reflexivity|]. split; [repeat constructor|]. split; vm_compute; reflexivity. Qed.
+Print Assumptions C18_example_access_order.
 
 Example C18_example_ints :
   ints_double [16777216; 33554436; -16777218; 0] = false /\ ints_double [33554434] = true /\ ints_double [5; 16777217] = true /\
